@@ -417,10 +417,18 @@ pub fn decode_objects_with(
             count,
             start,
         });
-        let size = obj_size(group, var).ok_or(DecodeError::UnknownObject(group, var))?;
         let dataless =
             lenient_counts && matches!(qual, 0x07 | 0x08) && count_only_event_group(group);
-        if data_present && qual != 0x06 && !dataless {
+        let needs_data = data_present && qual != 0x06 && !dataless;
+        let size = match obj_size(group, var) {
+            Some(s) => s,
+            // variation 0 ("any variation") of a known group: legal wherever no object data follows (READ requests)
+            None if var == 0 && !needs_data && (1..=16).any(|v| obj_size(group, v).is_some()) => {
+                ObjSize::Empty
+            }
+            None => return Err(DecodeError::UnknownObject(group, var)),
+        };
+        if needs_data {
             match size {
                 ObjSize::Empty => {}
                 ObjSize::Bits(nbits) => {
@@ -635,6 +643,10 @@ pub fn layout(group: u8, var: u8) -> Option<Layout> {
         (32, 6) => l(Analog, true, true, V::F64, T::None),
         (32, 7) => l(Analog, true, true, V::F32, T::Abs48),
         (32, 8) => l(Analog, true, true, V::F64, T::Abs48),
+        // analog input dead-bands: reported as static objects of the analog input they belong to
+        (34, 1) => l(Analog, false, false, V::U16, T::None),
+        (34, 2) => l(Analog, false, false, V::U32, T::None),
+        (34, 3) => l(Analog, false, false, V::F32, T::None),
         (40, 1) => l(AnalogOutputStatus, false, true, V::I32, T::None),
         (40, 2) => l(AnalogOutputStatus, false, true, V::I16, T::None),
         (40, 3) => l(AnalogOutputStatus, false, true, V::F32, T::None),
